@@ -123,10 +123,11 @@ fn tag_policy() -> Arc<table::PolicyAssignment> {
 type Route = (Arc<Vec<packet::Attribute>>, Option<bgp::Nexthop>);
 type Mirror = BTreeMap<(u32, u32), Route>;
 
-fn apply_msgs(msgs: &[bgp::Message], mirror: &mut Mirror) -> (Vec<Vec<u32>>, Vec<Vec<u32>>, u32) {
+// the third component: for each End-of-RIB, how many routes were announced before it in this batch
+fn apply_msgs(msgs: &[bgp::Message], mirror: &mut Mirror) -> (Vec<Vec<u32>>, Vec<Vec<u32>>, Vec<u32>) {
     let mut un = Vec::new();
     let mut re = Vec::new();
-    let mut eor = 0;
+    let mut eor: Vec<u32> = Vec::new();
     for m in msgs {
         match m {
             bgp::Message::Update(bgp::Update::Unreach { entries, .. }) => {
@@ -149,7 +150,7 @@ fn apply_msgs(msgs: &[bgp::Message], mirror: &mut Mirror) -> (Vec<Vec<u32>>, Vec
                     re.push(vec![k.0, k.1, s, t, l]);
                 }
             }
-            bgp::Message::Update(bgp::Update::EndOfRib(_)) => eor += 1,
+            bgp::Message::Update(bgp::Update::EndOfRib(_)) => eor.push(re.len() as u32),
             _ => panic!("verif: unexpected message drained"),
         }
     }
@@ -174,6 +175,12 @@ fn mirror_rows(m: &Mirror) -> Val {
     rows(&r)
 }
 
+// what travels on the session's event channel (ToPeerEvent::{NlriChange, RefreshWalk})
+enum Ev {
+    Change(table::NlriChange),
+    Walk(Vec<table::NlriChange>),
+}
+
 struct World {
     table: table::Table,
     srcs: Vec<Arc<table::Source>>,
@@ -186,7 +193,7 @@ struct World {
     policy0: Option<Arc<table::PolicyAssignment>>,
     glue_limited: bool,
     registered: bool,
-    chan: VecDeque<table::NlriChange>,
+    chan: VecDeque<Ev>,
     export_map: ExportMap,
     pending: crate::peer_tx::PendingTx,
     mirror: Mirror,
@@ -253,7 +260,15 @@ impl World {
         Val::L(vec![
             mirror_rows(&self.mirror),
             mirror_rows(&fresh),
-            Val::L(self.chan.iter().map(|c| Val::n(net_idx(&c.net))).collect()),
+            Val::L(
+                self.chan
+                    .iter()
+                    .filter_map(|e| match e {
+                        Ev::Change(c) => Some(Val::n(net_idx(&c.net))),
+                        Ev::Walk(_) => Some(Val::n(999)),
+                    })
+                    .collect(),
+            ),
             Val::b(fresh == self.mirror),
         ])
     }
@@ -285,7 +300,7 @@ impl World {
                 ),
             ]));
             if self.registered {
-                self.chan.push_back(c);
+                self.chan.push_back(Ev::Change(c));
             }
         }
     }
@@ -348,7 +363,7 @@ fn run_case(case: &Val) -> Val {
         confederation_id: 0,
     };
     let mut w = World {
-        table: table::Table::new(0),
+        table: table::Table::new(if cfg.list().len() > 8 { cfg.at(8).u32() } else { 0 }),
         srcs,
         max,
         aptx,
@@ -365,20 +380,30 @@ fn run_case(case: &Val) -> Val {
         mirror: Mirror::new(),
     };
     let mut out: Vec<Val> = Vec::new();
+    // next hops currently unreachable (TableManager keeps this set and flags new paths)
+    let mut bad_toks: Vec<u32> = Vec::new();
     for op in case.at(1).list() {
         match op.at(0).u32() {
             0 => {
                 let (s, n, t) = (op.at(1).usize(), op.at(2).u32(), op.at(3).u32());
+                // an explicitly next-hop-invalid path uses a next hop of its own that never
+                // becomes reachable; otherwise the flag follows the reachability of nh_of(t)
+                let explicit = op.at(5).bool();
+                let nh = if explicit {
+                    Some(bgp::Nexthop::V4(Ipv4Addr::new(10, 2, 9, 9)))
+                } else {
+                    nh_of(t)
+                };
                 let r = w.table.insert(
                     w.srcs[s].clone(),
                     FAM,
                     net_of(n),
                     0,
-                    nh_of(t),
+                    nh,
                     attrs_of(s as u32, t),
                     None,
                     op.at(4).bool(),
-                    op.at(5).bool(),
+                    explicit || bad_toks.contains(&t),
                     None,
                     0,
                 );
@@ -405,20 +430,52 @@ fn run_case(case: &Val) -> Val {
                 w.emit(cs, &mut out);
             }
             4 => {
-                // handle_prefix_update on the oldest queued change
-                if let Some(c) = w.chan.pop_front() {
-                    let mut em = std::mem::take(&mut w.export_map);
-                    let mut p = std::mem::replace(&mut w.pending, crate::peer_tx::PendingTx::new(aptx));
-                    w.process(&c, &mut em, &mut p);
-                    w.export_map = em;
-                    w.pending = p;
+                // run_select on the oldest queued event: handle_prefix_update, or the
+                // RefreshWalk arm (apply_refresh_walk + schedule_eor)
+                match w.chan.pop_front() {
+                    Some(Ev::Change(c)) => {
+                        let mut em = std::mem::take(&mut w.export_map);
+                        let mut p =
+                            std::mem::replace(&mut w.pending, crate::peer_tx::PendingTx::new(aptx));
+                        w.process(&c, &mut em, &mut p);
+                        w.export_map = em;
+                        w.pending = p;
+                    }
+                    Some(Ev::Walk(changes)) => {
+                        let mut em = std::mem::take(&mut w.export_map);
+                        let mut p =
+                            std::mem::replace(&mut w.pending, crate::peer_tx::PendingTx::new(aptx));
+                        for c in &changes {
+                            // once per path, named as replaced, for add-path
+                            let replaced: Vec<Option<u32>> = if w.max > 1 {
+                                c.current_paths.iter().map(|p| Some(p.local_path_id)).collect()
+                            } else {
+                                vec![None]
+                            };
+                            for r in replaced {
+                                let mut c = c.clone();
+                                c.replaced_path_id = r;
+                                w.process(&c, &mut em, &mut p);
+                            }
+                        }
+                        p.schedule_eor();
+                        w.export_map = em;
+                        w.pending = p;
+                    }
+                    None => {}
                 }
                 out.push(Val::L(vec![Val::n(2), Val::b(w.pending.is_empty())]));
             }
             5 => {
                 let msgs = w.pending.drain_messages(FAM);
                 let (un, re, eor) = apply_msgs(&msgs, &mut w.mirror);
-                out.push(Val::L(vec![Val::n(3), rows(&un), rows(&re), Val::n(eor), w.check()]));
+                out.push(Val::L(vec![
+                    Val::n(3),
+                    rows(&un),
+                    rows(&re),
+                    Val::L(eor.iter().map(|x| Val::n(*x)).collect()),
+                    w.check(),
+                ]));
             }
             6 => {
                 let (em, p) = w.initial_dump();
@@ -430,28 +487,37 @@ fn run_case(case: &Val) -> Val {
                 out.push(Val::L(vec![Val::n(4)]));
             }
             7 => {
+                // do_route_refresh -> TableManager::queue_refresh_walk: the snapshot is taken
+                // under the shard lock and queued behind the changes already on the channel
                 if w.registered {
                     let changes = w.snapshot();
-                    let mut em = std::mem::take(&mut w.export_map);
-                    let mut p = std::mem::replace(&mut w.pending, crate::peer_tx::PendingTx::new(aptx));
-                    for c in &changes {
-                        // do_route_refresh: once per path, named as replaced, for add-path
-                        let replaced: Vec<Option<u32>> = if w.max > 1 {
-                            c.current_paths.iter().map(|p| Some(p.local_path_id)).collect()
-                        } else {
-                            vec![None]
-                        };
-                        for r in replaced {
-                            let mut c = c.clone();
-                            c.replaced_path_id = r;
-                            w.process(&c, &mut em, &mut p);
-                        }
-                    }
-                    p.schedule_eor();
-                    w.export_map = em;
-                    w.pending = p;
+                    w.chan.push_back(Ev::Walk(changes));
                 }
                 out.push(Val::L(vec![Val::n(5), Val::b(w.pending.is_empty())]));
+            }
+            10 => {
+                // next-hop tracking: the next hop of token t becomes (un)reachable
+                let (t, reachable) = (op.at(1).u32(), op.at(2).bool());
+                bad_toks.retain(|x| *x != t);
+                if !reachable {
+                    bad_toks.push(t);
+                }
+                let cs = w
+                    .table
+                    .update_nexthop_validity(nh_of(t).unwrap().addr(), reachable);
+                w.emit(cs, &mut out);
+            }
+            11 => {
+                // graceful restart helper: the peer's paths become stale
+                let s = op.at(1).usize();
+                let cs = w.table.restale(w.srcs[s].remote_addr, FAM);
+                w.emit(cs, &mut out);
+            }
+            12 => {
+                // ... and are purged (EOR / restart timer)
+                let s = op.at(1).usize();
+                let (cs, _) = w.table.drop_stale(w.srcs[s].remote_addr, FAM, None);
+                w.emit(cs, &mut out);
             }
             9 => {
                 // the neighbour's export policy assignment is replaced: 0 = the configured
